@@ -216,4 +216,72 @@ theorem Back.lookup {P : Params} (hc : CodecOk P.codec) (hB : P.B < 2 ^ 24) {s :
     exact ⟨c', hs, h.setCache c' hco⟩
   · exact ⟨s.cachedFragBlk, rfl, h⟩
 
+/-- every recorded `sqfs_frag_table_set` addresses an existing table entry -/
+theorem Back.sets_lt {P : Params} {s : Proc} {g : Ghost} {F : FSt} {W : WSt} (h : Back P s g F W) :
+    ∀ e ∈ W.sets, e.1 < F.ntbl := by
+  intro e he
+  have : e.1 ∈ W.sets.map (·.1) := List.mem_map_of_mem he
+  rw [h.winv.setsIdx] at this
+  obtain ⟨b, hb, hbi⟩ := List.mem_map.mp this
+  obtain ⟨hbt, hbfb⟩ := List.mem_filter.mp hb
+  rw [← hbi]
+  exact (h.fb_facts (List.mem_of_mem_take hbt) hbfb).2.2
+
+/-- the fragment does not fit: the open block is closed first -/
+theorem Back.makeRoom {P : Params} (hP : P.ans = serialAns) {s : Proc} {g : Ghost} {F : FSt} {W : WSt}
+    (h : Back P s g F W) (ho : g.done.foldl fOpen false = false) (len : Nat) :
+    ∃ s' extra, makeRoom P s len = .ok s' ∧ Back P s' { g with items := g.items ++ extra } (F.makeRoom P len) W ∧
+      s'.fe = s.fe ∧ s'.backlog = s.backlog ∧ s'.ioQueue = s.ioQueue ∧ s'.maxBacklog = s.maxBacklog ∧
+      extra.length + boolNat s'.fragBlock.isSome = boolNat s.fragBlock.isSome := by
+  unfold BlockProc.makeRoom FSt.makeRoom
+  rw [h.fragBlock]
+  cases hop : F.opn with
+  | none =>
+    refine ⟨s, [], rfl, by simpa using h, rfl, rfl, rfl, rfl, ?_⟩
+    simp [h.fragBlock, hop]
+  | some fb =>
+    simp only
+    split
+    · obtain ⟨s', he, h1, h2, h3, h4, h5, hb⟩ := h.closeFrag hP fb hop ho
+      refine ⟨s', _, he, hb, h1, h2, h3, h5, ?_⟩
+      simp [h4, h.fragBlock, hop, boolNat]
+    · refine ⟨s, [], rfl, by simpa using h, rfl, rfl, rfl, rfl, ?_⟩
+      simp [h.fragBlock, hop]
+
+theorem replicate_succ_snoc {α : Type} (n : Nat) (a : α) : List.replicate (n + 1) a = List.replicate n a ++ [a] :=
+  List.replicate_succ'
+
+/-- the fragment becomes the open block, or is appended to it -/
+theorem Back.place {P : Params} {s : Proc} {g : Ghost} {F : FSt} {W : WSt} (h : Back P s g F W) (x : Blk)
+    (hne : x.data ≠ []) (hle : x.data.length ≤ P.B) (hfit : ∀ fb, F.opn = some fb → fb.data.length + x.data.length ≤ P.B) :
+    Back P (placeFrag s x).1 g (F.place x).1 W ∧ (placeFrag s x).2 = (F.place x).2 ∧
+      (placeFrag s x).1.fe = s.fe ∧ (placeFrag s x).1.backlog = s.backlog ∧ (placeFrag s x).1.ioQueue = s.ioQueue ∧
+      (placeFrag s x).1.maxBacklog = s.maxBacklog ∧ (placeFrag s x).1.fragBlock.isSome = true := by
+  unfold placeFrag FSt.place
+  rw [h.fragBlock]
+  cases hop : F.opn with
+  | none =>
+    simp only [h.tblLen]
+    refine ⟨?_, by simp [Proc.fe]⟩
+    refine { h with itemsOK := h.itemsOK, finv := h.finv.placeNew hop x hne hle, fragBlock := rfl, fragTbl := ?_,
+                    inodes := h.inodes, feIds := h.feIds }
+    simp only
+    rw [replicate_succ_snoc, applySets_snoc _ _ _ (by simpa using h.sets_lt), ← h.fragTbl]
+  | some fb =>
+    simp only
+    refine ⟨?_, by simp [Proc.fe]⟩
+    exact { h with finv := h.finv.placeAppend fb hop x (hfit fb hop), fragBlock := rfl }
+
+/-- the new table entry is inserted -/
+theorem Back.insert {P : Params} (hc : CodecOk P.codec) (hB : P.B < 2 ^ 24) {s : Proc} {g : Ghost} {F : FSt} {W : WSt}
+    (h : Back P s g F W) (d : Bytes) (new : Chunk) (hnew : ChunkOK F new) :
+    ∃ c', insert P s d new [] s.fragHt =
+        .ok { s with fragHt := insertRef (chunkEqRef P.byteCompare F d new.hash new.flags) new F.ht, cachedFragBlk := c' } ∧
+      Back P { s with fragHt := insertRef (chunkEqRef P.byteCompare F d new.hash new.flags) new F.ht, cachedFragBlk := c' } g
+        { F with ht := insertRef (chunkEqRef P.byteCompare F d new.hash new.flags) new F.ht } W := by
+  obtain ⟨c', hi, hco⟩ := insert_eq hc hB d new s.fragHt (fun c hcm => h.finv.chunks c (h.fragHt ▸ hcm)) [] h.look
+  refine ⟨c', ?_, ?_⟩
+  · rw [hi, h.fragHt]; rfl
+  · exact { h with finv := h.finv.insertChunk _ new hnew, fragHt := rfl, cache := hco }
+
 end Sqfs.BlockProc
